@@ -10,6 +10,7 @@ T2: generated .tsv tables (written directly, any pattern of finite / empty / NaN
     the model's Err.  Metamorphic layer on the implementation alone: a row permutation of the file leaves every
     summary unchanged (values as a multiset exactly)."""
 import json
+import os
 import math
 import tempfile
 from fractions import Fraction
@@ -26,7 +27,8 @@ ALLOWED_AXIOMS = []
 RULE = ("case = a table written directly as .tsv: 1-4 groups (nasty names) x 1-4 metrics x 1-9 subjects (names may repeat), "
         "each cell finite (repr of a double: small integers, halves, 0.1+0.2, 1/3, random at several scales, negative, repeated values; magnitudes 2^-40..2^17 -- extreme exponents are C18's stream, they only make the exact rational engine slow), "
         "empty, nan, inf or -inf in various spellings; columns without any finite value occur; plus a row permutation of "
-        "the same table. non-trivial = some column holds both a missing and at least two finite values")
+        "the same table; replaced-file layer: a second table written to the path (and timestamps) of a table already loaded in this process. "
+        "non-trivial = some column holds both a missing and at least two finite values")
 ASSUMPTIONS = [
     "numpy's float summation order and the final rounding of average / std are outside the model: statistics are compared "
     "with exact rationals within 2^-30 relative to max(1,|value|) (std as its square against the population variance)",
@@ -179,12 +181,20 @@ def cmp_summary(where, im, mo, exact_values=True, magnitude=0):
     return None
 
 
-def check_case(case):
-    """-> (violations [str], disagreements [str], triple, nontrivial, bucket)"""
+def check_case(case, before=None):
+    """-> (violations [str], disagreements [str], triple, nontrivial, bucket)
+    before: cells of another table that was at the same path, with the same timestamps, and was loaded first (a result file
+    replaced by a timestamp-preserving copy): what is loaded must be what the file holds now"""
     cells = case["cells"]
     with tempfile.TemporaryDirectory() as d:
         p = Path(d) / "t.tsv"
+        if before is not None:
+            write_cells(p, before)
+            os.utime(p, (1_600_000_000, 1_600_000_000))
+            impl_load(p)
         write_cells(p, cells)
+        if before is not None:
+            os.utime(p, (1_600_000_000, 1_600_000_000))
         im = impl_all(p, case["queries"])
         p2 = Path(d) / "p.tsv"
         write_cells(p2, [cells[0]] + [cells[1 + i] for i in case["perm"]])
@@ -319,6 +329,26 @@ def run(ctx):
             n_viol += 1
             if n_viol <= 10:
                 ctx.violation(what, {"case": case})
+    # a table replaced at the same path with preserved timestamps, after the old one was loaded in this process
+    n_repl = 0
+    for _ in range(ctx.scale(40, 400)):
+        a, b = gen_case(rng), gen_case(rng)
+        if rng.random() < 0.5:                    # same shape, other values / other row order
+            b = dict(a, cells=[a["cells"][0]] + [list(r) for r in reversed(a["cells"][1:])])
+            for r in b["cells"][1:]:
+                for j in range(1, len(r)):
+                    if rng.random() < 0.4:
+                        r[j] = rng.choice(["", "inf", repr(rng.uniform(-2, 2)), "0.5"])
+            b["perm"] = list(range(len(b["cells"]) - 1))
+        vio, dis, triple, nontrivial, bucket = check_case(b, before=a["cells"])
+        ctx.count({"replaced": True, "case": b, "before": a["cells"]}, nontrivial)
+        ctx.bump("replaced at the same path/" + bucket)
+        n_repl += 1
+        for what in vio[:1]:
+            n_viol += 1
+            if n_viol <= 10:
+                ctx.violation("after another table at the same path (same timestamps) was loaded: " + what, {"case": b, "before": a["cells"]})
+    ctx.layers.append({"layer": "table replaced at the same path with preserved timestamps after a first load", "cases": n_repl})
     n, bad = coq_crosscheck("C20", triples, timeout=600)
     ctx.crosschecked = n
     for b in bad:
@@ -331,7 +361,11 @@ def run(ctx):
 def replay(path):
     d = json.loads(open(path).read())
     case = d["case"] if "case" in d else d
-    vio, dis, triple, _, bucket = check_case(case)
+    vio, dis, triple, _, bucket = check_case(case, before=d.get("before"))
+    if d.get("before"):
+        print("first loaded from the same path (same timestamps), then replaced:")
+        for r in d["before"]:
+            print("   ", r)
     print("table:")
     for r in case["cells"]:
         print("   ", r)
